@@ -93,11 +93,18 @@ class ArchiverFaults:
         self.delete_points = []
         self.bad_paths = set()
         self.fired = 0
+        self.create_points = []
         self._real_delete = client.delete
+        self._real_create = client.create
         self._real_mutating = client._mutating
         client.delete = self.delete
+        client.create = self.create
         if self.fault and self.fault['kind'] == 'conn_outage':
             client._mutating = self.mutating
+
+    def create(self, path, *args, **kwargs):
+        self.create_points.append(self.client.nwrites + 1)
+        return self._real_create(path, *args, **kwargs)
 
     def delete(self, path, version=-1, recursive=False):
         client = self.client
@@ -148,7 +155,7 @@ class Api:
         key = (kind, data, name)
         hit = Api._cache.get(key)
         if hit is None:
-            hit = tuple(tracezk.download_batch(
+            hit = frozenset(tracezk.download_batch(
                 self.client, oracle.HIST[kind] + '/' + snap,
                 oracle.TABLE[kind], name=name))
             if len(Api._cache) > 20000:
@@ -199,6 +206,7 @@ class World:
         self.archives = 0
         self.last_archive_writes = 0
         self.last_delete_points = []
+        self.last_create_points = []
         self.last_outcome = None
         self.last_phase = None
         self.last_stats = None
@@ -325,6 +333,52 @@ class World:
         finally:
             server_zk._HOSTNAME = saved
 
+    def op_bulk(self, op):
+        """`count` archivable records at once, written straight into the
+        tree (what thousands of publish calls would leave behind; ONE op so
+        that replays stay small and the count can be shrunk).
+        trace:    events `<inst>,<ts - i*step>,<host>,configured,u<i>` of
+                  `ninst` instances that are neither scheduled nor finished
+        server:   events `<server>,<ts - i*step>,<server>,server_state,up`
+        finished: /finished/<inst> records (mtime = now)"""
+        kind = op.get('kind')
+        count = max(0, int(op.get('count', 0)))
+        zk = self.zk
+        sid = self.admin.client_id[0]
+        ninst = max(1, int(op.get('ninst', 1)))
+        base = float(op.get('ts', 0.0))
+        step = float(op.get('step', 0.001))
+        id0 = int(op.get('id0', 1000000))
+        if kind == 'finished':
+            self.admin.ensure_path(z.FINISHED)
+            for i in range(count):
+                path = z.path.finished('bulk.fin#%010d' % (id0 + i))
+                if path not in zk.nodes:
+                    zk._create_node(
+                        path, b'{"data": "0.0", "host": "bulk.sim", '
+                        b'"state": "finished", "when": "0"}', sid, False)
+        elif kind in ('trace', 'server'):
+            parents = []
+            for j in range(ninst):
+                if kind == 'trace':
+                    name = 'bulk.app#%010d' % (id0 + 256 * j)
+                    parent = z.path.trace(name)
+                else:
+                    name = 'bulk%d.sim' % j
+                    parent = z.path.server_trace(name)
+                self.admin.ensure_path(parent)
+                parents.append((name, parent))
+            tail = 'bulk.sim,configured,u%06d' if kind == 'trace' \
+                else 'bulk.sim,server_state,up%d'
+            for i in range(count):
+                name, parent = parents[i % ninst]
+                node = '%s,%s,%s' % (name, _stamp(base - i * step), tail % i)
+                path = parent + '/' + node
+                if path not in zk.nodes:
+                    zk._create_node(path, b'', sid, False)
+        self.probes['bulk_records'] = self.probes.get('bulk_records', 0) + \
+            count
+
     # ------------------------------------------------------------------
     def _call(self, phase, client, par):
         """One statement of the loop body of sproc/trace.py cleanup()."""
@@ -400,6 +454,7 @@ class World:
             if err_text and 'RetryFailedError' in err_text:
                 self.probes['retry_exhausted'] += 1
         self.last_delete_points = injector.delete_points
+        self.last_create_points = injector.create_points
         self.last_archive_writes = client.nwrites
         self.last_outcome = outcome
         self.last_phase = state.phase
@@ -429,6 +484,13 @@ class World:
         stats = self.last_stats
         if stats is not None and self.violation is None:
             self.probes['snapshots_created'] += stats['created']
+            for kind in oracle.KINDS:
+                for data in oracle.snapshots(self.zk, kind).values():
+                    if len(data) > 1048575:
+                        # informational: real ZooKeeper (jute.maxbuffer)
+                        # would have refused this create
+                        self.probes['snapshots_over_1MB'] = \
+                            self.probes.get('snapshots_over_1MB', 0) + 1
             self.probes['events_archived'] += stats['archived']
             self.probes['finished_archived'] += stats['finished_archived']
             self.probes['server_events_archived'] += stats['server_archived']
@@ -614,6 +676,15 @@ class Generator:
                 if payload:
                     op['payload'] = payload
                 at(age, op)
+        bulk = self.cfg.get('bulk') if main else None
+        if bulk:
+            op = {'op': 'bulk', 'kind': bulk['kind'], 'count': bulk['count'],
+                  'ninst': bulk['ninst'], 'id0': 1000000, 'step': 0.001}
+            if bulk['kind'] == 'finished':
+                at(exp_f * 3, op)
+            else:
+                op['ts'] = round(t_arch - exp_t * 3, 6)
+                at(horizon, op)
         servers = self.cfg['servers']
         for _ in range(n_srv_events):
             server = rng.choice(servers)
@@ -702,6 +773,42 @@ def make_config(prop, tier, rng):
     cfg['conn_loss_points'] = None if big else 8
     cfg['delete_fault_points'] = None if big else 10
     cfg['child_order'] = rng.getrandbits(32) if rng.random() < 0.5 else None
+    # heavy tail of batch size and volume: most runs as above; 1 in 12 with
+    # a batch size above 10000 (1 in 14), 1 in 12 at a plausible constant, with enough
+    # archivable records of one kind to fill at least one batch
+    cfg['bulk'] = None
+    cfg['crash_sample'] = None
+    draw = rng.random()
+    if draw < 1.0 / 14 + 1.0 / 12:
+        if draw < 1.0 / 14:
+            # 10001..20000, most of the mass just above 10000
+            batch = 10001 + int(9999 * rng.random() ** 3)
+            count = batch + rng.randint(0, 300)
+        else:
+            batch = rng.choice([100] * 4 + [1000] * 3 + [1024] * 3 +
+                               [4096, 5000, 8192, 9999])
+            full = 1 if batch >= 4096 else rng.choice([1, 2, 3])
+            count = batch * full + rng.randint(0, min(batch - 1, 200))
+        # (the trace kind costs most: both policy prunes parse every event)
+        kind = rng.choice(['trace', 'trace', 'finished', 'server']
+                          if count <= 2500 else
+                          ['trace', 'finished', 'finished', 'server'])
+        cfg['bulk'] = {'kind': kind, 'count': count,
+                       'ninst': rng.choice([1, 3, 4])}
+        cfg['archive']['finished_batch' if kind == 'finished'
+                       else 'trace_batch'] = batch
+        # every write of such a pass cannot be enumerated: the create of the
+        # biggest batch (before / after it exists), the middle of its
+        # deletes, and random points
+        heavy = count > 2500
+        cfg['crash_sample'] = 30 if big else (2 if heavy else 8)
+        cfg['conn_loss_points'] = 4 if big else (0 if heavy else 1)
+        cfg['delete_fault_points'] = 4 if big else 1
+        cfg['heavy'] = heavy and not big
+        cfg['recover_frac'] = 0.5 if big else (0.1 if heavy else 0.15)
+        cfg['pre_rounds'] = 0 if heavy else min(cfg['pre_rounds'], 1)
+        if heavy:
+            cfg['n_inst'] = min(cfg['n_inst'], 4)
     return cfg
 
 
@@ -790,7 +897,10 @@ class TraceSim(enginemod.Engine):
         return make_config(prop, tier, rng)
 
     def shrink_candidates(self, config, ops):
-        """Consecutive advances merged into one (same instants)."""
+        """Consecutive advances merged into one (same instants); then the
+        count of a bulk op (and with it the batch size of the archive ops
+        that follow, never above the count) bisected down while the same
+        signature persists."""
         merged = []
         for op in ops:
             if op.get('op') == 'advance' and merged and \
@@ -801,6 +911,40 @@ class TraceSim(enginemod.Engine):
                 merged.append(dict(op))
         if len(merged) < len(ops):
             yield config, merged
+        bulks = [i for i, op in enumerate(merged) if op.get('op') == 'bulk'
+                 and int(op.get('count', 0)) > 1]
+        if not bulks:
+            return
+        ref = self._run(config, 0, merged, False)
+        if ref.violation is None:
+            return
+        sig = ref.violation['sig']
+        i = bulks[-1]
+        key = 'finished_batch' if merged[i].get('kind') == 'finished' \
+            else 'trace_batch'
+
+        def variant(n):
+            out = [dict(op) for op in merged]
+            out[i]['count'] = n
+            for op in out[i + 1:]:
+                if op.get('op') == 'archive' and key in op:
+                    op[key] = max(1, min(int(op[key]), n))
+            return out
+
+        def fails(n):
+            res = self._run(config, 0, variant(n), False)
+            return res.violation is not None and res.violation['sig'] == sig
+        low, high = 0, int(merged[i]['count'])     # fails(high) is known
+        tests = 0
+        while high - low > 1 and tests < 18:
+            mid = (low + high) // 2
+            tests += 1
+            if fails(mid):
+                high = mid
+            else:
+                low = mid
+        if high < int(merged[i]['count']):
+            yield config, variant(high)
 
     # ------------------------------------------------------------------
     def _run(self, config, seed, ops, keep_log, resume=None,
@@ -862,6 +1006,7 @@ class TraceSim(enginemod.Engine):
             res.log_lines = log.lines if keep_log else None
             res.extra = {'writes': world.last_archive_writes,
                          'delete_points': list(world.last_delete_points),
+                         'create_points': list(world.last_create_points),
                          'crash_phase': dict(world.crash_phase),
                          'outcome': world.last_outcome}
         finally:
@@ -881,6 +1026,7 @@ class TraceSim(enginemod.Engine):
         base = self._run(config, seed, None, keep_log)
         nwrites = base.extra['writes']
         dpoints = base.extra['delete_points']
+        cpoints = base.extra['create_points']
         base.extra = {}
         if base.violation is not None:
             return base
@@ -899,8 +1045,26 @@ class TraceSim(enginemod.Engine):
         cl_rng = streams.get('conn_loss')
         exp_t = history[j]['expiry_t']
         variants = []
-        for k in range(1, nwrites + 1):
+        crash_ks = list(range(1, nwrites + 1))
+        limit = config.get('crash_sample')
+        if limit is not None and nwrites > 2 * limit:
+            cp_rng = streams.get('crash_points')
+            # the create followed by the longest run of deletes
+            ends = cpoints[1:] + [nwrites + 1]
+            near = []
+            if cpoints:
+                size, first = max((e - c, -c) for c, e in zip(cpoints, ends))
+                first = -first
+                near = sorted({first, min(nwrites, first + size // 2)})
+            near = near[:limit]
+            rest = [k for k in crash_ks if k not in near]
+            crash_ks = sorted(near + cp_rng.sample(
+                rest, max(0, min(len(rest), limit - len(near)))))
+            total.probes['crash_points_sampled_runs'] = 1
+        for k in crash_ks:
             for applied in (False, True):
+                if config.get('heavy') and applied and k != crash_ks[0]:
+                    continue
                 variants.append({'at': k, 'kind': 'crash',
                                  'applied': applied})
         points = list(range(1, nwrites + 1))
@@ -931,9 +1095,11 @@ class TraceSim(enginemod.Engine):
                 variants.append({'at': k, 'kind': 'delete_error',
                                  'error': df_rng.choice(sorted(
                                      DELETE_ERRORS))})
-                variants.append({'at': k, 'kind': 'conn_outage',
-                                 'count': df_rng.choice([5, 5, 4, 7]),
-                                 'applied': df_rng.random() < 0.5})
+                outage = {'at': k, 'kind': 'conn_outage',
+                          'count': df_rng.choice([5, 5, 4, 7]),
+                          'applied': df_rng.random() < 0.5}
+                if not config.get('heavy'):
+                    variants.append(outage)
         # the fault-free prefix is executed once and resumed from (the
         # variants differ only from op j on); cross-checked below
         prefix = self._run(config, seed, history[:j], keep_log,
@@ -956,6 +1122,10 @@ class TraceSim(enginemod.Engine):
             ran_steps = res.steps - j
             ran_sim = res.sim_s - prefix_sim
             category = 'recovery' if len(ops_v) > j + 2 else fault['kind']
+            if config.get('heavy'):
+                # no routine cross-check in a heavy run (the other runs of
+                # the batch make it); a violating variant still is
+                checked.add(category)
             if res.violation is not None or category not in checked:
                 # plain re-execution of the whole op list must agree
                 full = self._run(config, seed, ops_v, keep_log)
